@@ -97,6 +97,8 @@ def build_color_doc(spec, shared=None):
             bkw["text_font"] = s["font"]
         if s.get("group_by"):
             bkw["group_by"] = s["group_by"]
+        if spec.get("body_border_last") is not None:
+            bkw["border_last"] = spec["body_border_last"]
         body = shared if (shared is not None and si == 0) else rtf.RTFBody(**bkw)
         dfs.append(df)
         bodies.append(body)
@@ -104,7 +106,7 @@ def build_color_doc(spec, shared=None):
             headers.append([rtf.RTFColumnHeader(text=["~H%d.%d~" % (si + 1, j + 1) for j in range(m)], **comp_kw("header"))])
         else:
             headers.append([None])
-    page = rtf.RTFPage(nrow=spec.get("nrow", 40))
+    page = rtf.RTFPage(nrow=spec.get("nrow", 40), **({"page_footnote": spec["page_footnote"]} if spec.get("page_footnote") else {}))
     if path == "single":
         hk = {"rtf_column_header": headers[0] if "header" in comp else []}
         return rtf.RTFDocument(df=dfs[0], rtf_body=bodies[0], rtf_page=page, **hk, **kw)
@@ -217,6 +219,8 @@ POOL = {
     "fail": dict(path="single", sections=[dict(n=3, m=2, text="grey39", group_by=["~D1.1~"])], comp={}),
     "share2": dict(path="single", sections=[dict(n=2, m=2)], comp={}),
     "share3": dict(path="single", sections=[dict(n=2, m=3)], comp={}),
+    # paginated, table footnote on every page, no body closing border: a page without its own border override
+    "pagedfn": dict(path="single", sections=[dict(n=5, m=2)], comp={"footnote": ["", "", 0]}, nrow=4, page_footnote="all", body_border_last=""),
     "paged": dict(path="single", sections=[dict(n=4, m=1, text=[["blue"], ["red"]])], comp={"title": ["", "", 0], "footnote": ["", "", 0]}, nrow=3),
 }
 
